@@ -49,6 +49,7 @@ type elasticBulkDec struct {
 	onEntries onEntriesHandler
 
 	labels [][]string
+	due    int // 0: an action line is due, 1: the document of an index/create action, 2: the partial document of an update
 }
 
 func (e *elasticBulkDec) Decode() error {
@@ -77,6 +78,19 @@ func (e *elasticBulkDec) decodeLine(line []byte) error {
 	if len(line) == 0 {
 		return nil
 	}
+	if e.due != 0 {
+		// the line after an index / create / update action is its document, whatever keys it has
+		due := e.due
+		e.due = 0
+		if err := dec.Obj(func(d *jx.Decoder, key string) error { return d.Skip() }); err != nil {
+			return customErrors.NewUnmarshalError(err)
+		}
+		if due == 2 || len(e.labels) == 0 {
+			return nil
+		}
+		return e.onEntries(e.labels, []int64{time.Now().UnixNano()}, []string{string(line)}, []float64{0},
+			[]uint8{model.SAMPLE_TYPE_LOG})
+	}
 	err := dec.Obj(func(d *jx.Decoder, key string) error {
 		if noContent {
 			return dec.Skip()
@@ -89,11 +103,13 @@ func (e *elasticBulkDec) decodeLine(line []byte) error {
 			return d.Skip()
 		case "update":
 			noContent = true
+			e.due = 2
 			e.labels = e.labels[:0]
 			// Skip remaining content for update operation
 			return d.Skip()
 		case "index", "create":
 			noContent = true
+			e.due = 1
 			return e.decodeCreateObj(d)
 		default:
 			// Handle unexpected keys
